@@ -294,7 +294,7 @@ Definition is_unhashable (v : nat) : bool := Nat.leb 900 v.     (* token convent
 
 Inductive f_res :=
 | FOkNone | FOkTok (n : nat) | FOkHash (h : Z)
-| FOkNew (items : rel) (same_obj equal : bool)
+| FOkNew (items : rel) (same_obj equal : bool) (h : f_res)    (* h: hash() of the returned object: FOkHash / FRaise / FOkNone = not taken *)
 | FRaise (e : exn).
 
 Inductive f_op :=
@@ -304,6 +304,15 @@ Inductive f_op :=
 (* dict.update as a map: later pairs win *)
 Definition r_map_update (r : rel) (kvs : list pair) : rel :=
   fold_left (fun r p => (fst p, snd p) :: r_del_key r (fst p)) kvs r.
+
+(* hash() of an object with these items: not taken, FrozenHashError iff a value is unhashable, else a value *)
+Definition hash_shape_ok (items : rel) (h : f_res) : bool :=
+  match h with
+  | FOkNone => true
+  | FRaise e => exn_eqb e FrozenHashErr && existsb (fun p => is_unhashable (snd p)) items
+  | FOkHash _ => negb (existsb (fun p => is_unhashable (snd p)) items)
+  | _ => false
+  end.
 
 (* one step on a frozen dict whose items were [before] and are [after] *)
 Definition f_op_ok (before : rel) (op : f_op) (res : f_res) (after : rel) : bool :=
@@ -322,14 +331,14 @@ Definition f_op_ok (before : rel) (op : f_op) (res : f_res) (after : rel) : bool
       end
   | SFUpdated kvs =>
       match res with
-      | FOkNew items same equal =>
+      | FOkNew items same equal h =>
           functional items && same_set items (r_map_update before kvs) &&
-          Bool.eqb equal (same_set items before)
+          Bool.eqb equal (same_set items before) && hash_shape_ok items h
       | _ => false
       end
   | SFCopy | SFPickle =>
       match res with
-      | FOkNew items _ equal => functional items && same_set items before && equal
+      | FOkNew items _ equal h => functional items && same_set items before && equal && hash_shape_ok items h
       | _ => false
       end
   end.
@@ -341,7 +350,8 @@ Definition f_res_eqb (a b : f_res) : bool :=
   | _, _ => false
   end.
 
-(* all hash() results of one object are the same *)
+(* all hash() results of one object - and of every object it returned that
+   compares equal to it (updated / copy / pickle) - are the same *)
 Definition hashes_consistent (rs : list f_res) : bool :=
   match rs with [] => true | r :: rest => forallb (f_res_eqb r) rest end.
 
